@@ -6,12 +6,16 @@ package flight12
 //symgo:replace github.com/pion/dtls/v3/internal/handshakecrypto.VerifyKeySignature zzFakeVerifyKeySignature
 //symgo:replace github.com/pion/dtls/v3/internal/handshakecrypto.VerifyCertificateVerify zzFakeVerifyCertificateVerify
 //symgo:replace github.com/pion/dtls/v3/pkg/crypto/prf.VerifyDataClient zzFakeVerifyDataClient
+//symgo:replace github.com/pion/dtls/v3/internal/handshakecrypto.VerifyServerCert zzRecVerifyServerCert
+//symgo:replace github.com/pion/dtls/v3/internal/handshakecrypto.VerifyClientCert zzRecVerifyClientCert
+//symgo:stub handshakecrypto.VerifyServerCert / VerifyClientCert (X.509 path building) are recorders of the signature-scheme list they are handed and accept
 //symgo:stub prf.VerifyDataClient returns twelve zero bytes, the verify_data the harness puts into the client's Finished (the Finished check itself is C04)
 //symgo:stub prf.MasterSecret returns a constant; VerifyKeySignature / VerifyCertificateVerify always report a VALID signature (the most permissive peer: acceptance then depends only on the policy check under test); the cipher suite is a harness fake (certificate authenticated, Init does nothing)
 //symgo:assume zzSigSchemeServerAccepts: the server's scheme list entries are well-formed as ParseSignatureSchemes produces them (a PSS code point with its own hash, or two one-byte values that do not spell a PSS code point), so that each entry stands for exactly one wire code point
 //symgo:outside certificate chain verification (C03); signature_algorithms_cert is present only as an arbitrary list that must not influence the handshake-signature decision
 
 import (
+	"crypto/x509"
 	"hash"
 
 	"github.com/pion/dtls/v3/internal/ciphersuite"
@@ -40,6 +44,42 @@ func zzFakeVerifyKeySignature(_, _ []byte, _ dtlshash.Algorithm, _ signature.Alg
 
 func zzFakeVerifyCertificateVerify(_ []byte, _ dtlshash.Algorithm, _ signature.Algorithm, _ []byte, _ [][]byte) error {
 	return nil
+}
+
+var (
+	zzChainCalls int
+	zzChainAlgs  []signaturehash.Algorithm
+)
+
+func zzRecVerifyServerCert(_ [][]byte, _ *x509.CertPool, _ string, algs []signaturehash.Algorithm) ([][]*x509.Certificate, error) {
+	zzChainCalls++
+	zzChainAlgs = algs
+
+	return nil, nil
+}
+
+func zzRecVerifyClientCert(_ [][]byte, _ *x509.CertPool, algs []signaturehash.Algorithm) ([][]*x509.Certificate, error) {
+	zzChainCalls++
+	zzChainAlgs = algs
+
+	return nil, nil
+}
+
+// zzChainListIs: the list handed to chain verification is the signature_algorithms_cert list when configured,
+// else the signature_algorithms list (RFC 8446 section 4.2.3, also applied by the DTLS 1.2 code).
+func zzChainListIs(cfg *dtlsconfig.HandshakeConfig) {
+	want := cfg.LocalCertSignatureSchemes
+	if len(want) == 0 {
+		want = cfg.LocalSignatureSchemes
+	}
+	zzsymAssert(zzChainCalls == 1, "chain_verified_once")
+	zzsymAssert(len(zzChainAlgs) == len(want), "chain_scheme_list_is_cert_list_or_fallback")
+	for i := range want {
+		if i < len(zzChainAlgs) {
+			zzsymAssert(zzsymAnd(zzChainAlgs[i].Hash == want[i].Hash, zzChainAlgs[i].Signature == want[i].Signature),
+				"chain_scheme_list_is_cert_list_or_fallback")
+		}
+	}
 }
 
 // zzCertSuite: a certificate-authenticated ECDHE suite without real cryptography.
@@ -115,7 +155,7 @@ func zzSchemeAllowed(list []signaturehash.Algorithm, h dtlshash.Algorithm, s sig
 // the pair is in its own signature_algorithms list (whatever its signature_algorithms_cert list says); otherwise it stops with a fatal insufficient_security alert. Together with
 // zzSigSchemePick (the server picks from ITS list) the negotiated scheme is one both sides allow.
 //
-//symgo:entry covers=accepted,refused
+//symgo:entry covers=accepted,refused,chain_list_checked
 func zzSigSchemeClientAccepts() {
 	cfg := &dtlsconfig.HandshakeConfig{
 		LocalSignatureSchemes: zzSymPolicySchemes("client_scheme", zzsymChoice("nclient", zzsymParam("NFSCHEME")+1)),
@@ -126,6 +166,9 @@ func zzSigSchemeClientAccepts() {
 	if nc := zzsymChoice("ncertschemes", 2); nc > 0 {
 		cfg.LocalCertSignatureSchemes = zzSymPolicySchemes("client_cert_scheme", nc)
 	}
+	zzChainCalls, zzChainAlgs = 0, nil
+	verifyChain := zzsymChoice("verify_chain", 2) == 1
+	cfg.InsecureSkipVerify = !verifyChain
 	suite := &zzCertSuite{}
 	state := &dtlsstate.State12{
 		Common:          &dtlsstate.Common{IsClient: true, LocalVersion: protocol.Version1_2, CipherSuite: suite},
@@ -154,6 +197,10 @@ func zzSigSchemeClientAccepts() {
 	}
 	zzsymAssert(allowed, "client_accepts_only_schemes_in_its_list")
 	zzsymAssert(suite.initialized, "accepted_initialises_cipher")
+	if verifyChain {
+		zzChainListIs(cfg)
+		zzsymCover("chain_list_checked")
+	}
 	zzsymCover("accepted")
 }
 
@@ -164,7 +211,7 @@ func zzSigSchemeClientAccepts() {
 // authentication required: the server reaches Flight6 only if the code point on the wire is one it configured; otherwise it stops with a fatal
 // insufficient_security alert (or a decode failure for byte pairs that are no signature scheme at all).
 //
-//symgo:entry covers=accepted,refused_by_policy,undecodable
+//symgo:entry covers=accepted,refused_by_policy,undecodable,chain_list_checked
 func zzSigSchemeServerAccepts() {
 	// the server's policy: arbitrary well-formed (hash, signature) entries and, computed by the harness, the IANA
 	// SignatureScheme code point each entry stands for
@@ -178,6 +225,14 @@ func zzSigSchemeServerAccepts() {
 		LocalSignatureSchemes: policy,
 		ClientAuth:            dtlsconfig.RequireAnyClientCert,
 		Log:                   zzNoLog{},
+	}
+	zzChainCalls, zzChainAlgs = 0, nil
+	verifyChain := zzsymChoice("verify_chain", 2) == 1
+	if verifyChain {
+		cfg.ClientAuth = dtlsconfig.RequireAndVerifyClientCert
+		if zzsymChoice("server_cert_scheme_list", 2) == 1 {
+			cfg.LocalCertSignatureSchemes = zzSymPolicySchemes("server_cert_scheme", 1)
+		}
 	}
 	suite := &zzCertSuite{initialized: true} // keys already derived: only the policy decisions remain
 	server := zzNewPeer(false, cfg)
@@ -216,6 +271,10 @@ func zzSigSchemeServerAccepts() {
 	if next == Flight6 {
 		zzsymAssert(err == nil && a == nil, "flight6_without_error")
 		zzsymAssert(allowed, "server_accepts_only_schemes_in_its_list")
+		if verifyChain {
+			zzChainListIs(cfg)
+			zzsymCover("chain_list_checked")
+		}
 		zzsymCover("accepted")
 
 		return
